@@ -253,6 +253,17 @@ def run_string(shard, rec):
             annot._insert_raw(it2, rng, {"t": "tag", "name": w, "suffix": "", "node": None, "role": "raw", "raw": w})
             texts.append(annot.render(it2, rng, ns))
             rec.count("string-kind", "bad-character-in-extension" + (" (prefixed)" if ns else ""))
+        if k % 3 == 0:
+            # faults located by a position inside a tag whose text gets longer when case-folded (sharp s, dotted I):
+            # an unknown first term, and a schema term used as an extension after such a term
+            import copy as _copy
+            it3 = _copy.deepcopy(items)
+            w = rng.choice(["\u0130\u0130\u0130", "Stra\u00dfe", "\u0130x/Red"])
+            if gen.ext and rng.random() < 0.5:
+                w = gen.spell(rng.choice(gen.ext)) + "/" + rng.choice(["Stra\u00dfe", "Ma\u00df/Wei\u00df"]) + "/" + rng.choice(gen.plain).name
+            annot._insert_raw(it3, rng, {"t": "tag", "name": w, "suffix": "", "node": None, "role": "raw", "raw": w})
+            texts.append(annot.render(it3, rng, ns))
+            rec.count("string-kind", "position-in-fold-length-tag")
         dd = DefinitionDict(defs, schema) if defs else None
         for text in texts:
             ap = rng.random() < 0.5
